@@ -163,8 +163,9 @@ impl Server for LocalServer {
     }
 
     async fn add_snapshot(&mut self, _version_id: VersionId, _snapshot: Snapshot) -> Result<()> {
-        // the local server never requests a snapshot, so it should never get one
-        unreachable!()
+        // The local server never requests a snapshot and does not keep one. A server is free to
+        // discard a snapshot, and responds with success in any case.
+        Ok(())
     }
 
     async fn get_snapshot(&mut self) -> Result<Option<(VersionId, Snapshot)>> {
